@@ -201,10 +201,10 @@ open List
     stores y = z, consumes the whole text and leaves the stream good(), EXCEPT for a hex output stream with showbase:
     a hex input stream does not accept the "0x" it writes (it reads 0 and stops at the x; see the example after
     `extractZ_spec`), unlike `std::num_get`.  (Octal with showbase is fine: the leading 0 is an octal digit.)
-    FULL STATEMENT (the part not proved): the same conclusion when `fi` has no single basefield bit (auto-detection),
-    under the condition `fo.outBase = 10 ∨ fo.showbase` — decimal text needs no prefix, hex/octal text is only
-    recognised with the prefix showbase writes; and the mpq analogue (numerator and denominator each, denominator > 0).
-    Both are exercised by the correspondence run only (each direction separately, on the same texts). -/
+    FULL STATEMENT: the same conclusion when `fi` has no single basefield bit (auto-detection), under the condition
+    `fo.outBase = 10 ∨ fo.showbase` — decimal text needs no prefix, hex/octal text is only recognised with the prefix
+    showbase writes; and the mpq analogue (numerator and denominator each, denominator > 0).  Both are now proved:
+    `roundtripZ` and `roundtripQ` in Props/C20_io2.lean (condition `ReadsBack fo fi`); this theorem is the fixed-base half. -/
 theorem roundtripZ_partial (fo fi : Fmt) (z w : Int) (hw : w ≤ 0) (fill : Char) (hfi : fi.base? = some fo.outBase)
     (hx : ¬ (fo.showbase = true ∧ fo.hexOnly = true)) :
     extractZ (mkG (insertZ { fmt := fo, width := w, fill := fill } z).out [] fi) =
